@@ -72,6 +72,13 @@ def cmdargsSpec (s : Str) : List Str := cmdGo .gap s
 /-- white space of the argv splitter: `" \r\n\t"` -/
 def isWsArgv (c : Byte) : Bool := c == SP || c == CR || c == NL || c == TAB
 
+/-- `new` is `old` except that some white-space characters have been replaced
+by the terminator NUL (same length, nothing else changed) -/
+def onlyTerminated : Str → Str → Bool
+  | [], [] => true
+  | a :: as, b :: bs => (a == b || (a == NUL && isWsArgv b)) && onlyTerminated as bs
+  | _, _ => false
+
 /-- expected behaviour of a dispatcher on the token list of the line -/
 def dispatchSpec (rcBlank : Int) (toks : List Str) (tables : List (List Str × Nat)) : Dispatch :=
   match toks with
